@@ -2,7 +2,8 @@
    bytes values go to files named md5(key) in the folder, every other value (RasterImage / SVGImage objects,
    and None = "this image could not be loaded") stays in a memory dict.  __getitem__ looks in the memory layer
    first, then reads the file; __contains__ is "in memory or the file exists".  A second DiskCache on the same
-   folder (a second render) starts with an empty memory layer and the same files.
+   folder (a second render) has its own private sub-directory: it starts empty and never touches the files of
+   the first one.
    The abstract map it must refine is a Python dict (model: association list, newest first).
    Definitions only. *)
 From Coq Require Import List String Bool Arith.
@@ -45,8 +46,9 @@ Section DiskCache.
   Definition dc_contains (s : dcache) (k : string) : bool :=
     is_some (afind (dc_mem s) k) || is_some (afind (dc_disk s) (digest k)).
 
-  (* DiskCache(folder) again, the first instance still alive: same files, empty memory layer *)
-  Definition dc_reopen (s : dcache) : dcache := {| dc_mem := []; dc_disk := dc_disk s |}.
+  (* DiskCache(folder) again (a second render): every instance stores its files in a private directory made
+     in the folder, so the new instance sees neither the objects nor the files of the other ones *)
+  Definition dc_reopen (s : dcache) : dcache := dc_empty.
 
   Inductive op := OSet (k : string) (v : value) | OGet (k : string) | OContains (k : string) | OReopen.
   Inductive obs := ObsSet | ObsGet (v : option value) | ObsIn (b : bool).
